@@ -1541,7 +1541,8 @@ class Enumerator:
             yield s, v, None
             return
         sym = self.fresh(v)
-        s.events[-1].sym = sym.id if calls else None
+        if calls and s.events:
+            s.events[-1].sym = sym.id
         yield s, sym, None
 
     def _nested_inlinable(self, v):
